@@ -1,7 +1,14 @@
 """C17 runner: builds real jsonargparse parsers from generated subcommand trees and parses one
 structured input per case.  stdin: {"cases": [case, ...]}; stdout (last line): [obs, ...].
 
-case  = {"parser": P, "env": null | OBJ, "entry": {"kind": "args", "argv": A} | {"kind": "object"|"string", "cfg": OBJ}}
+case  = {"parser": P, "env": null | OBJ, "envmode": MODE (optional, default "ctor"),
+         "entry": {"kind": "args", "argv": A} | {"kind": "object"|"string", "cfg": OBJ}}
+MODE  = how environment parsing is switched on/off while the variables of "env" are in os.environ:
+        "ctor"       root built with default_env=True
+        "setter"     tree built with default_env=False, THEN root.default_env = True (the setter must reach every level)
+        "arg"        default_env=False, parse_*(..., env=True)
+        "off_setter" tree built with default_env=True, THEN root.default_env = False  (environment must NOT be read)
+        "off"        default_env=False                                               (environment must NOT be read)
 P     = {"cfg": bool, "opts": [[name, default], ...], "has": bool, "req": bool, "dest": str, "choices": [[name, P], ...]}
 A     = {"items": [["opt", k, v] | ["cfg", OBJ], ...], "sub": null | [name, A]}
 OBJ   = [[key, int | str | OBJ], ...]      (ordered JSON object)
@@ -85,21 +92,27 @@ def canon(v):
 def run(case):
     for k in [k for k in os.environ if k.startswith("APP_")]:
         del os.environ[k]
-    default_env = case["env"] is not None
-    if default_env:
+    os.environ.pop("JSONARGPARSE_DEFAULT_ENV", None)
+    mode = case.get("envmode", "ctor") if case["env"] is not None else "none"
+    if case["env"] is not None:
         os.environ.update(render_env(case["env"]))
+    kw = {"env": True} if mode == "arg" else {}
     try:
-        parser = build_tree(case["parser"], default_env)
+        parser = build_tree(case["parser"], mode in ("ctor", "off_setter"))
+        if mode == "setter":
+            parser.default_env = True
+        elif mode == "off_setter":
+            parser.default_env = False
     except BaseException as e:  # noqa
         return {"fail": "build:" + type(e).__name__ + ":" + str(e)[:80]}
     e = case["entry"]
     try:
         if e["kind"] == "args":
-            cfg = parser.parse_args(render_argv(e["argv"]))
+            cfg = parser.parse_args(render_argv(e["argv"]), **kw)
         elif e["kind"] == "object":
-            cfg = parser.parse_object(obj(e["cfg"]))
+            cfg = parser.parse_object(obj(e["cfg"]), **kw)
         else:
-            cfg = parser.parse_string(json.dumps(obj(e["cfg"])))
+            cfg = parser.parse_string(json.dumps(obj(e["cfg"])), **kw)
         return {"ok": canon(cfg.as_dict())}
     except BaseException as ex:  # noqa
         msg = str(ex)
